@@ -797,6 +797,9 @@ func runStoreX(o *opts) error {
 						stats["mixed_"+sc]++
 					}
 				}
+				if profile == "c16" {
+					g.c16w5Shape(&t, stats) // entry points, DeleteWhere, aimed refusals (store_c16w5.go)
+				}
 			}
 			applyUpdateSysRule(k, &t)
 			c.WriteString(" ")
